@@ -37,5 +37,6 @@ def run(col, configs, tier):
         guarded_soft(col, X.rule_denormal_shift, facts, ("lemire",))
         guarded_soft(col, X.rule_rte_window, facts)
         guarded_soft(col, X.rule_lemire_precision_and_window, facts)
+        guarded_soft(col, X.rule_disguised_fast_path_checked, facts)
         guarded_soft(col, X.rule_bellerophon_underflow_order, facts)
         guarded_soft(col, X.rule_error_accounting, facts)
